@@ -963,7 +963,11 @@ def main(tier):
         jobs.append(('case_clean_misfit', (shapes[0], w)))
     for w in ('noise_floor', 'std', 'fill_gap', 'open_gap'):
         jobs.append(('case_survey_reuse', (shapes[0], w)))
-    obs = pmap(_dispatch, jobs)
+    # the nonlinear misfit queries each in a fresh worker process (20-30 s
+    # there; > 240 s = unknown in a worker that ran other cases before)
+    mis = [j for j in jobs if j[0] == 'case_misfit']
+    obs = pmap(_dispatch, mis, fresh=True)
+    obs += pmap(_dispatch, [j for j in jobs if j[0] != 'case_misfit'])
     run.add(obs)
     run.bounds = dict(shapes=shapes, parameter_forms=combos,
                       operations=list(OPS)+['copy', 'to_dict/from_dict',
